@@ -271,6 +271,8 @@ def oracle(case, thorough=False):
     if ctl_raw == lab.base_raw:
         return out      # the operation is a no-op (everything skipped): nothing can fail midway
 
+    counter_ = {'n': 0}
+
     def after_fault(db, label, raised, in_close=False):
         """Checks after a faulty run; returns False when the run must be abandoned."""
         conn = wn._db.pool.get(db.file)
@@ -290,6 +292,21 @@ def oracle(case, thorough=False):
         problems = dumps.audit(db.file)
         if problems:
             out.append(Disc('audit-after-failure', label, [], problems))
+        counter_['n'] += 1
+        if counter_['n'] % 3 == 0 and lab.base_raw.get('lexicons'):
+            # variant: the first thing done after the failure is a removal of what was
+            # installed before (same pooled connection): it must cascade completely
+            for spec in reversed(dumps.installed(db.file)):
+                if any(lx.specifier() == spec for lx in wn.lexicons()):
+                    wn.remove(spec, progress_handler=None)
+            problems = dumps.audit(db.file)
+            left = {t: len(rows) for t, rows in
+                    dumps.raw_dump(db.file, skip=dumps.LOOKUP_TABLES).items()
+                    if t != '__schema__' and rows}
+            if problems or left:
+                out.append(Disc('removal-after-failure-leaves-rows', label, {},
+                                [problems, left]))
+            return 'rolled-back'
         # the library stays usable: the valid operation now gives the normal result
         try:
             lab.run_op(None)
@@ -305,6 +322,16 @@ def oracle(case, thorough=False):
             if d:
                 out.append(Disc('result-after-failure-differs', label,
                                 [x[1] for x in d], [(x[0], x[2]) for x in d]))
+        # ... and so do later operations on the same connection: removing what is installed
+        # cascades completely (nothing the failure left switched off or cached)
+        for spec in reversed(dumps.installed(db.file)):
+            if any(lx.specifier() == spec for lx in wn.lexicons()):
+                wn.remove(spec, progress_handler=None)
+        problems = dumps.audit(db.file)
+        left = {t: len(rows) for t, rows in dumps.raw_dump(db.file, skip=dumps.LOOKUP_TABLES).items()
+                if t != '__schema__' and rows}
+        if problems or left:
+            out.append(Disc('removal-after-failure-leaves-rows', label, {}, [problems, left]))
         return 'rolled-back'
 
     tags = stats.setdefault('outcomes', {})
